@@ -18,6 +18,7 @@ func init() {
 		Level: "exploration",
 		Rule: "random write-heavy histories (1-3 writers, INSERT/UPDATE/DELETE, BEGIN/COMMIT/ROLLBACK, refresh merges, no-op commits) for entries_per_node in {2,3,4,16,4096}; " +
 			"after every acknowledged commit an independent decoder walks the new version in the bucket and a cache-less read-only handle re-reads it; " +
+			"epilogue on a second table: rows are inserted, deleted and vacuumed away (by the writer itself or by another connection), the writer refreshes and replays the same insert with the same write time (node cache on in half of the cases) - the bucket must again hold everything the acknowledged version refers to; " +
 			"non-trivial = the case reached a tree of >=3 levels with a sparse interior node; distinct = hash of (branch factor, writers, statement list)",
 		Flavours: []string{"plain"},
 		Cases: func(tier string) int {
@@ -245,7 +246,29 @@ func runC16(c *Case) {
 				faulted = true
 				c.Count("commit_faults_injected", 1)
 			}
+			invalidKey := false
+			if !faulted && r.Intn(25) == 0 {
+				// a TEXT key that is not valid UTF-8: the commit is either refused (and leaves no
+				// trace) or stores exactly these bytes
+				q = fmt.Sprintf("insert into %s values (CAST(x'6bff%02x' AS TEXT), 'inv', %d)", w.table, r.Intn(4), stmtNo)
+				invalidKey = true
+				c.Count("invalid_utf8_key_statements", 1)
+			}
 			err := run(w, q)
+			if invalidKey && err != nil && errClass(err) == "error" {
+				c.Count("invalid_utf8_key_refused", 1)
+				// the refused statement left no trace in the writer's own view
+				if n, e := w.conn.Scalar("select count(*) from " + w.table + " where a = 'inv'"); e != nil || n != "i:0" {
+					c.Violate(sigp+"refused-row-visible", fmt.Sprintf("after %q was refused (%v) the writer's own scan shows %s such rows (%v)", q, err, n, e), prog)
+				}
+				continue
+			}
+			if invalidKey {
+				c.Count("invalid_utf8_key_"+errClass(err), 1)
+				if err != nil {
+					c.Violate(sigp+"refused-key-present", "a key whose commit was refused earlier now counts as present: "+err.Error(), prog)
+				}
+			}
 			if faulted {
 				st.Client(w.client).ClearFaults()
 				prog = append(prog, "   (one PUT failed during that statement)")
@@ -342,6 +365,111 @@ func runC16(c *Case) {
 				} else if d := firstDiff(own, rows); d != "" {
 					c.Violate(sigp+"other-process-differs", "a separate process reads different rows than the committer: "+d, prog)
 				}
+			}
+		}
+	}
+	// replay epilogue: an idempotent replay (same rows, same write time) after the rows were
+	// deleted and vacuumed away - by the writer itself or by another connection - builds the very
+	// node that the vacuum removed from the bucket; the acknowledged commit must have stored it again.
+	// One value column, so that equal rows encode to equal bytes.
+	if c.Res.Status != "violated" {
+		rcache := 0
+		if r.Bool() {
+			rcache = 16
+		}
+		self := r.Bool()
+		rp := "rp"
+		wc := OpenConn("rw")
+		defer wc.Close()
+		wt := tname(c, "rw")
+		rspec := TableSpec{Name: wt, Cols: "k PRIMARY KEY, a", Store: st.Name, Client: "rw", Prefix: rp, EPN: epn, Cache: rcache}
+		fail := func(sig, msg string) {
+			c.Violate("C16:replay-after-vacuum:"+sig, msg, map[string]interface{}{"create": rspec.SQL(), "vacuum_by_writer_itself": self})
+		}
+		n := r.Range(1, 3)
+		ins := func() error {
+			wc.SetWriteTime(5000)
+			if err := wc.Exec("begin"); err != nil {
+				return err
+			}
+			for i := 0; i < n; i++ {
+				if err := wc.Exec(fmt.Sprintf("insert into %s values (%d, 'r%d')", wt, i, i)); err != nil {
+					wc.Exec("rollback")
+					return err
+				}
+			}
+			return wc.Exec("commit")
+		}
+		err := wc.Create(rspec)
+		if err == nil {
+			err = ins()
+		}
+		var first []string
+		if err == nil {
+			first, err = wc.Dump(wt)
+		}
+		if err == nil {
+			jc, jt := wc, wt
+			if !self {
+				jc = OpenConn("rj")
+				defer jc.Close()
+				jt = tname(c, "rj")
+				js := rspec
+				js.Name, js.Client, js.Cache = jt, "rj", 0
+				err = jc.Create(js)
+			}
+			if err == nil {
+				jc.SetWriteTime(5001)
+				err = jc.Exec("delete from " + jt)
+			}
+			if err == nil {
+				var res []string
+				res, err = jc.Rows("select vacuum_error from s3db_vacuum('"+jt+"', ?)", "2999-01-01 00:00:00")
+				if err == nil && (len(res) != 1 || res[0] != "NULL") {
+					err = fmt.Errorf("vacuum_error %v", res)
+				}
+			}
+		}
+		if err == nil && !self {
+			// (the writer that vacuumed itself goes on with the handle, and the cache, it has)
+			err = wc.Exec("select s3db_refresh('" + wt + "')")
+		}
+		if err == nil {
+			err = ins()
+		}
+		if err != nil {
+			fail("statement-error", err.Error())
+		} else {
+			c.Count("replays_after_vacuum", 1)
+			own, err := wc.Dump(wt)
+			if err != nil {
+				fail("writer-scan-error", err.Error())
+			} else if d := firstDiff(first, own); d != "" {
+				fail("replay-not-applied", "the writer's own view after the replay differs from its view after the first insert: "+d)
+			} else {
+				snap := st.Snapshot()
+				rbase := walk.Base(rp)
+				for _, name := range walk.VersionNames(snap, rbase, "current") {
+					for _, p := range walk.Walk(snap, rbase, name).Problems {
+						cls := p
+						if i := strings.Index(p, ":"); i > 0 {
+							cls = p[:i]
+						}
+						fail("walker:"+cls, fmt.Sprintf("current version %s after the acknowledged replay: %s", name, p))
+					}
+				}
+				fc := OpenConn("rf")
+				ft := tname(c, "rf")
+				fs := rspec
+				fs.Name, fs.Client, fs.Cache, fs.ReadOnly = ft, "rf", 0, true
+				if err := fc.Create(fs); err != nil {
+					fail("fresh-open-error", "a fresh connection cannot open the table after the acknowledged replay: "+err.Error())
+				} else if fd, err := fc.Dump(ft); err != nil {
+					fail("fresh-scan-error", "a fresh connection cannot read the table after the acknowledged replay: "+err.Error())
+				} else if d := firstDiff(own, fd); d != "" {
+					fail("fresh-scan-differs", "a fresh connection reads other rows than the writer after the acknowledged replay (writer vs fresh): "+d)
+				}
+				fc.Close()
 			}
 		}
 	}
